@@ -1126,3 +1126,108 @@ Proof.
 Qed.
 
 End Tree.
+
+(* ================================================================== *)
+(* Part 7: the statements of C11 on the mirror                          *)
+
+From Coq Require Import Permutation.
+
+Section Statements.
+Variable f : Z -> Z -> Z.
+Variable cf : cfg.
+Hypothesis f_assoc : forall a b c, f (f a b) c = f a (f b c).
+Hypothesis Hlift : c_lifted cf = true.
+
+(* The invariant of the reduction tree between cycles. *)
+Record tree_inv (st : store) (L : list leaf) (vals : list Z) (k : nat) (combs : list (option comb)) : Prop := {
+  ti_vals : leaf_vals st L vals;
+  ti_cap : length L <= 2 ^ k;
+  ti_zero : c_has_zero cf = true -> 1 <= k;
+  ti_pres : wf_presence cf L k combs;
+  ti_good : forall p, p < internals (2 ^ k) -> present combs p = true -> good f cf L vals k combs p
+}.
+
+Lemma tree_inv_result st L vals k combs : tree_inv st L vals k combs ->
+  src_value cf st combs (agg_src cf L combs (root_aggregate (c_has_zero cf) (2 ^ k) (length L) (length combs)))
+  = spec_result f cf vals.
+Proof. intros [H1 H2 H3 H4 H5]. exact (root_value f cf st L vals k combs H1 H2 H3 H4 H5). Qed.
+
+(* One cycle without capacity growth: the structural pass over the paths of the structural leaves,
+   then the evaluation pass over (structural positions that hold a combiner) + (paths of the leaves
+   whose value ticked) [+ anything else], re-establish the invariant for the new leaves and values. *)
+Lemma cycle_partial st st' k L vals L' vals' combs sleaves dm extra combs1 cr rt :
+  tree_inv st L vals k combs ->
+  leaf_vals st' L' vals' -> length L' <= 2 ^ k ->
+  (forall i, ~ In i sleaves -> nth_opt i L' = nth_opt i L) ->
+  (forall i, ~ In i sleaves -> ~ In i dm -> nth_opt i vals' = nth_opt i vals) ->
+  let spos := sort_desc_unique (concat (map (leaf_path (2 ^ k) (length combs)) sleaves)) in
+  fold_left (phase1_at cf (2 ^ k) (length L')) spos (combs, [], []) = (combs1, cr, rt) ->
+  exists combs2 log w,
+    fold_left (eval_at f cf st' L' (2 ^ k)) (visited k combs1 spos dm extra) (combs1, [], []) = (combs2, log, w) /\
+    tree_inv st' L' vals' k combs2 /\ (forall p, present combs2 p = present combs1 p).
+Proof.
+  intros [T1 T2 T3 T4 T5] Hvals' Hcap' HL Hv spos Hph.
+  assert (Hlv : length vals = length L) by (destruct T1; assumption).
+  destruct (partial_rebuild_ok f cf st' k L vals L' vals' combs sleaves dm combs1 cr rt
+              Hvals' Hlv T2 Hcap' T4 T5 HL Hv Hph) as [W1 W2].
+  destruct (eval_visited f cf f_assoc Hlift st' k L' vals' combs1 (visited k combs1 spos dm extra)
+              Hvals' Hcap' (sort_desc_unique_sorted _) W1) as [combs2 [log [w [E1 [E2 [E3 E4]]]]]].
+  { intros p Hp Hpr Hnin. apply W2; try assumption. intros Hc. apply Hnin.
+    unfold visited in Hc |- *. apply (proj1 (sort_desc_unique_in _ _)) in Hc.
+    apply (proj2 (sort_desc_unique_in _ _)).
+    apply in_app_iff in Hc. apply in_app_iff. destruct Hc as [Hc|Hc]; [left; exact Hc|right].
+    apply in_app_iff in Hc. apply in_app_iff. destruct Hc as [Hc|Hc]; [left; exact Hc|destruct Hc]. }
+  exists combs2, log, w. split; [exact E1|]. split; [|exact E3].
+  constructor; assumption.
+Qed.
+
+(* One cycle with a full rebuild (first publication, or growth into the other bank): every combine
+   point is structural and is evaluated. *)
+Lemma cycle_full st' k L' vals' combs0 combs1 cr rt dm extra :
+  leaf_vals st' L' vals' -> length L' <= 2 ^ k -> (c_has_zero cf = true -> 1 <= k) ->
+  length combs0 = internals (2 ^ k) ->
+  let spos := down_from (length combs0) in
+  fold_left (phase1_at cf (2 ^ k) (length L')) spos (combs0, [], []) = (combs1, cr, rt) ->
+  exists combs2 log w,
+    fold_left (eval_at f cf st' L' (2 ^ k)) (visited k combs1 spos dm extra) (combs1, [], []) = (combs2, log, w) /\
+    tree_inv st' L' vals' k combs2 /\ (forall p, present combs2 p = present combs1 p).
+Proof.
+  intros Hvals' Hcap' Hz Hlen spos Hph.
+  pose proof (full_rebuild_ok cf k L' combs0 combs1 cr rt Hlen Hph) as W1.
+  destruct (eval_visited f cf f_assoc Hlift st' k L' vals' combs1 (visited k combs1 spos dm extra)
+              Hvals' Hcap' (sort_desc_unique_sorted _) W1) as [combs2 [log [w [E1 [E2 [E3 E4]]]]]].
+  { intros p Hp Hpr Hnin. exfalso. apply Hnin. unfold visited. apply sort_desc_unique_in.
+    apply in_app_iff. left. apply filter_In. split; [|exact Hpr].
+    unfold spos. apply down_from_in. lia. }
+  exists combs2, log, w. split; [exact E1|]. split; [|exact E3].
+  constructor; assumption.
+Qed.
+
+(* ---- order independence ---- *)
+Hypothesis f_comm : forall a b, f a b = f b a.
+
+Lemma fold_left_perm l l' : Permutation l l' -> forall x, fold_left f l x = fold_left f l' x.
+Proof.
+  induction 1; intros z; simpl; auto.
+  - f_equal. rewrite !f_assoc. f_equal. apply f_comm.
+  - rewrite IHPermutation1. apply IHPermutation2.
+Qed.
+
+Lemma fold1_perm l l' : Permutation l l' -> fold1 f l = fold1 f l'.
+Proof.
+  induction 1; simpl; auto.
+  - f_equal. apply fold_left_perm. assumption.
+  - f_equal. f_equal. apply f_comm.
+  - congruence.
+Qed.
+
+Lemma spec_result_perm vals vals' : Permutation vals vals' -> spec_result f cf vals = spec_result f cf vals'.
+Proof.
+  intros HP. pose proof (Permutation_length HP) as Hl.
+  destruct vals as [|v [|v2 r]], vals' as [|w [|w2 r']]; simpl in Hl; try lia.
+  - reflexivity.
+  - apply Permutation_length_1 in HP. subst. reflexivity.
+  - unfold spec_result. apply fold1_perm. exact HP.
+Qed.
+
+End Statements.
